@@ -5,7 +5,7 @@ import json, os, shutil, subprocess, sys
 sys.path.insert(0, os.path.dirname(os.path.abspath(__file__)))
 import eval_seed
 pid, var = sys.argv[1], sys.argv[2]
-wt = "/tmp/seed/%s" % pid
+wt = os.path.join(os.environ.get("SEED_ROOT", "/tmp/seed"), pid)
 sd = os.path.join(wt, "_seed")
 patch = os.path.join(sd, "%s.patch.diff" % var)
 demo = os.path.join(sd, "%s.demo.py" % var)
@@ -36,6 +36,13 @@ ev = eval_seed.run(patch)
 rep["checks"] = ev.get("results") if "results" in ev else ev
 fired = [p for p, rc, l in ev.get("results", []) if rc == 1]
 errs = [p for p, rc, l in ev.get("results", []) if rc not in (0, 1)]
+first_fired, first_errs = fired, errs
+try:
+    _first = json.load(open("/verif/tools/dev/round2_eval.json")).get("%s-%s" % (pid, var))
+    if _first and os.environ.get("SEED_ROOT"):
+        first_fired, first_errs = _first["fired"], _first["errors"]
+except (OSError, ValueError):
+    pass
 rep["fired"] = fired
 rep["analysis_errors"] = errs
 if rep["confirmed"]:
@@ -48,7 +55,7 @@ if rep["confirmed"]:
         "demo_exit_without_patch": rep["demo_without_patch_exit"], "demo_exit_with_patch": rep["demo_with_patch_exit"],
         "full_test_suite_exit_with_patch": rep["tests_exit"],
         "ran": "git apply patch.diff in a scratch worktree; /venv/bin/python demo.py; /venv/bin/python -m pytest -q -x; git checkout"},
-        "checks_fired_when_first_evaluated": fired, "checks_with_analysis_error_when_first_evaluated": errs})
+        "checks_fired_when_first_evaluated": first_fired, "checks_with_analysis_error_when_first_evaluated": first_errs})
     json.dump(m, open(os.path.join(out, "meta.json"), "w"), indent=1)
 print(json.dumps({k: rep[k] for k in ("id", "confirmed", "demo_without_patch_exit", "demo_with_patch_exit", "tests_exit", "fired", "analysis_errors")}))
 for p, rc, l in ev.get("results", []):
